@@ -29,6 +29,10 @@ CLAIMED = {
    text="Cross-product driver: every algorithm covered by the oracles of C09, C10, C11, C12, C15, C16 and C20 is run on every encoding (Graph, StableGraph, MatrixGraph, GraphMap, Csr, adj::List) x history (fresh, shuffled, garbage-then-remove leaving vacant indices / swap renumbering) of the same abstract graph, with its own seeds; every run is judged by that algorithm's TLA+ oracle (equal where unique, equally valid and optimal where not), and a panic, hang or out-of-bounds on one encoding is a rejection. The algorithm x encoding applicability matrix is written to the evidence.",
    note="Trusted: the oracles of the individual properties. VF2 (Graph only by its bounds) and the walkers are covered in C13 / C08. Several sizing defects (node_count vs node_bound) were found this way and fixed; page_rank on index spaces with holes is a recorded finding.",
    design="4/C07", technique="TLA+ oracle specs evaluated by TLC on recorded (input, encoding, output) triples"),
+ "C08": dict(
+   text="Dfs, DfsPostOrder (each with move_to continuation and reset), Bfs, Topo (with reset) and depth_first_search under control scripts (Prune on Discover / TreeEdge / non-tree edges / Finish, Break at a chosen event, several start sets) are run directly and through Reversed on every encoding x history; TLC judges every emission / event sequence against OracleC08.tla: exactly the reachable nodes each once, Bfs in non-decreasing hop distance (minimum walk length), DfsPostOrder only after successors that cannot reach back, Topo exactly the nodes not on or downstream of a cycle each after all predecessors, and for depth_first_search a replay of the event list through the search state machine (well-nested Discover/Finish with strictly increasing times, edge class by discovered/finished state of the target, every neighbour reported with multiplicity, Prune and Break honoured, Prune on Finish = documented panic).",
+   note="Trusted: TLC, Paths/GraphTheory definitions, harness id mapping. The oracle accepts every legal order (neighbour order is unspecified). Inputs bounded (exhaustive n<=3, random n<=5/6). NodeFiltered/EdgeFiltered/UndirectedAdaptor walkers are exercised in C06.",
+   design="4/C08", technique="TLA+ oracle spec evaluated by TLC on recorded (input, output) pairs"),
  "C09": dict(
    text="Every C09 algorithm (kosaraju_scc, tarjan_scc, TarjanScc::run + node_component_index, connected_components, has_path_connecting with fresh and reused DfsSpace, is_cyclic_directed/undirected, is_bipartite_undirected, toposort fresh/reused, condensation with and without make_acyclic) is run on every encoding (Graph, StableGraph, MatrixGraph, GraphMap, Csr, adj::List) x history (fresh, shuffled, garbage-then-remove) of exhaustive small graphs and seeded random/adversarial shapes; each recorded output is judged by TLC against definitions in GraphTheory.tla/OracleC09.tla (reachability closure, mutual-reachability classes, forest edge count, 2-colourability by exhaustive colouring).",
    note="Trusted: TLC, GraphTheory.tla definitions, harness id mapping. Inputs bounded (exhaustive n<=3, random n<=6/7, binomial union orders to 16 nodes): exploration beyond. One genuine defect (Csr undirected edge_references) found and fixed.",
